@@ -1194,7 +1194,20 @@ func (s *Store) AssignManualServiceVIPs(idx uint64, psn structs.PeeredServiceNam
 		}
 	}
 
-	return true, maps.SliceOfKeys(modifiedEntries), nil
+	// Return the affected services in a stable order: this slice is part of the
+	// command's result and must be the same on every server applying the entry.
+	unassignedFrom := maps.SliceOfKeys(modifiedEntries)
+	sort.Slice(unassignedFrom, func(i, j int) bool {
+		a, b := unassignedFrom[i], unassignedFrom[j]
+		if a.Peer != b.Peer {
+			return a.Peer < b.Peer
+		}
+		if a.ServiceName.EnterpriseMeta.IsSame(&b.ServiceName.EnterpriseMeta) {
+			return a.ServiceName.Name < b.ServiceName.Name
+		}
+		return a.ServiceName.EnterpriseMeta.LessThan(&b.ServiceName.EnterpriseMeta)
+	})
+	return true, unassignedFrom, nil
 }
 
 func updateVirtualIPMaxIndexes(txn WriteTxn, idx uint64, partition, peerName string) error {
